@@ -131,6 +131,30 @@ theorem dedupeLast_strict (s : List KV) (hs : List.Pairwise (fun x y => kvLe x y
 theorem keys_strictly_ascending (xs : List KV) : List.Pairwise keyLt (emitAttrs xs) :=
   dedupeLast_strict _ (List.pairwise_mergeSort kvLe_trans kvLe_total xs)
 
+/-- A strictly ascending list has no run to collapse. -/
+theorem dedupeLast_of_strict (s : List KV) (h : List.Pairwise keyLt s) : dedupeLast s = s := by
+  induction s with
+  | nil => rfl
+  | cons a t ih =>
+    cases t with
+    | nil => rfl
+    | cons c rest =>
+      have hac : keyLt a c := (List.pairwise_cons.mp h).1 c (by simp)
+      have hne : (a.key == c.key) = false := by simpa using hac.2
+      have iht := ih (List.pairwise_cons.mp h).2
+      simp [dedupeLast, hne, iht]
+
+/-- (2b) Preparing an already prepared list changes nothing: sorting and de-duplicating is
+    idempotent, for lists of any length (so what a record carries after the first preparation is
+    in its final form — no order or value can change on a second pass). -/
+theorem emit_idempotent (xs : List KV) : emitAttrs (emitAttrs xs) = emitAttrs xs := by
+  have hs := keys_strictly_ascending xs
+  have hle : List.Pairwise (fun x y => kvLe x y = true) (emitAttrs xs) :=
+    hs.imp (fun h => h.1)
+  unfold emitAttrs at hs hle ⊢
+  rw [List.mergeSort_of_pairwise hle]
+  exact dedupeLast_of_strict _ hs
+
 /-- The value printed under key `k` by a de-duplicated sorted list is that of the last element
     with key `k`. -/
 theorem dedupeLast_last (s : List KV) (hs : List.Pairwise (fun x y => kvLe x y = true) s) (k : Bytes) :
